@@ -35,13 +35,16 @@ Positions == {"validation.rego", "validation.regoModule", "validation.rego.code"
               "extensions.rule"}
 \* how the call is written
 Syntaxes == {"statement", "assignment", "unification", "arrayComprehension", "setComprehension",
-             "objectComprehension", "every", "argument", "negated", "ruleHeadValue"}
+             "objectComprehension", "every", "argument", "negated", "ruleHeadValue", "withMock"}
 
 \* rego_extensions are spliced before the preamble's `import future.keywords.every`, so `every` cannot be written
 \* there; a call as the value of a rule head only exists where whole rules can be written (rego_extensions)
 ExtensionPositions == {"extensions.called", "extensions.uncalled", "extensions.rule"}
+\* "withMock": the call is written `harmless(args) with harmless as dangerous`; walk (a relation of arity 2)
+\* has no type-compatible harmless stand-in, and neither has the control concat
 Feasible(p, s) == /\ ~(s = "every" /\ p \in ExtensionPositions)
                   /\ (s = "ruleHeadValue" => p \in ExtensionPositions)
+FeasibleFor(b, s) == ~(s = "withMock" /\ b \in {"walk", "concat"})
 
 VARIABLES phase, mod, effects
 vars == <<phase, mod, effects>>
@@ -49,7 +52,7 @@ vars == <<phase, mod, effects>>
 Init == phase = "idle" /\ mod = [b |-> "none", pos |-> "none", syn |-> "none"] /\ effects = {}
 
 Compose(b, p, s) ==
-  /\ phase = "idle" /\ Feasible(p, s)
+  /\ phase = "idle" /\ Feasible(p, s) /\ FeasibleFor(b, s)
   /\ mod' = [b |-> b, pos |-> p, syn |-> s]
   /\ phase' = "composed"
   /\ UNCHANGED effects
